@@ -50,7 +50,36 @@ func reachedStatusStage(v *SyncView) bool {
 	return true
 }
 
+// statusWriteSwallowed: the last write of the reconciled object's own status failed and the
+// reconcile reported neither an error nor a requeue - the request is dropped from the work queue
+// with the stored status stale.
+func statusWriteSwallowed(t *Task, kind string) *Call {
+	if t.Crashed || t.Panic != nil || t.Err != nil || t.Result.Requeue || t.Result.RequeueAfter > 0 {
+		return nil
+	}
+	var last *Call
+	for _, c := range t.Calls {
+		if c.Kind == kind && (c.Verb == "updatestatus" || c.Verb == "patchstatus") && c.NS == t.Key.Namespace && c.Name == t.Key.Name {
+			last = c
+		}
+	}
+	if last == nil || last.Applied() || last.Err == nil {
+		return nil
+	}
+	return last
+}
+
 func (monC14) TaskEnd(s *Sim, t *Task) {
+	if t.Ctrl == CtrlERS {
+		if c := statusWriteSwallowed(t, KERS); c != nil {
+			s.Violate("C14", "status-write-lost", "ers", "%s: its status write failed (%v) but the reconcile reported success and no requeue: the stored status stays stale with nothing scheduled to refresh it", t.Label(), c.Err)
+		}
+	}
+	if t.Ctrl == CtrlEDS {
+		if c := statusWriteSwallowed(t, KEDS); c != nil {
+			s.Violate("C14", "status-write-lost", "eds", "%s: its status write failed (%v) but the reconcile reported success and no requeue", t.Label(), c.Err)
+		}
+	}
 	switch t.Ctrl {
 	case CtrlERS:
 		if !t.Clean() {
